@@ -44,10 +44,10 @@ CFG = dict(
              "interleaving_irrelevant, modify_parallel_eq_sequential_* (3), scan_multiset_* (6): in an event-log model where a schedule is ANY merge of the workers' logs preserving each worker's order, Modify leaves exactly the sequential loop's array and Scan delivers a permutation of the sequential (index, value) pairs, for all n, size >= 1, callbacks, schedules. "
              "blocks_disjoint_* (three functions, textually identical clamp expressions today), chunks_enumerated, index_injective: per axis the clamped block ranges partition the padded domain for all integer bounds; cells of a block are distinct. addFieldParallel_eq_addField (with addfield_cells_distinct): in a job model built from the regenerated expressions (one job per enumerated block, events = the read-modify-write cell updates of its triple loop, any update function), for every integer domain, every initial canvas and EVERY interleaving of the jobs, AddFieldParallel and AddFieldParallel2 leave exactly the canvas of the sequential AddField. append_perm_tris / merge_keeps_all_tris: appending well-formed block meshes in any order gives the same multiset of triangles-as-corner-positions. "
              "methods_covered, topologies_covered, block_workers_agree are regeneration pins (rfl/decide on extractor output), listed as helpers, not as property theorems. "
-             "Tie: regeneration before every build; every parallel Mesh entry point run with recording callbacks for n <= 64 x pool -1..17 (thorough: all pairs; quick: 19 edge pairs + 40 sampled) on Triangle/Point/LineStrip meshes vs the model's visit lists, vs the sequential call (oracle same_output) and vs the property (oracle visits_exact), empty line strip first as corpus witness; fields over 1-8 storage blocks (negative block coordinates, two fields per canvas, axis-squashed shapes): AddFieldParallel/AddFieldParallel2 vs AddField as sample multisets and marched triangle multisets, MarchParallel vs March (oracle same_tri_multiset); -race build of stream c10r at GOMAXPROCS 1/2/16 in both tiers.",
+             "Tie: regeneration before every build; every parallel Mesh entry point run with recording callbacks for n <= 64 x pool -1..17 (thorough: all pairs; quick: 19 edge pairs + 40 sampled) on Triangle/Point/LineStrip meshes vs the model's visit lists, vs the sequential call (oracle same_output) and vs the property (oracle visits_exact), empty line strip first as corpus witness; marching canvases in three categories — placements over 1-8 storage blocks (negative block coordinates, axis-squashed shapes), seam-hugging shapes (surface within one cell of a block boundary so that one block holds values on one side of the cutoff only: per axis, corners, both orientations, inverted fields, cutoff 0/+-1/4 cell, cubesPerUnit 1/2/4/10), and accumulation histories (2-4 calls with overlapping domains on one canvas and attribute): AddFieldParallel/AddFieldParallel2 vs AddField as sample multisets and, after EACH call, cell for cell (canvas read with reflect/unsafe; oracle same_output), the whole history replayed by the Lean job model at Float (model line c10.accumulate, bit-exact for all three variants), MarchParallel vs March and marched variants as triangle multisets (oracle same_tri_multiset); -race build of stream c10r at GOMAXPROCS 1/2/16 in both tiers.",
         note="Trusted: Lean kernel + propext/Quot.sound/Classical.choice; the extractor (go/facts/c10*.go); the harness; the Go race detector. Modelled, not proved about Go: int(math.Floor(float64(a)/float64(b))) as floor division (exact below 2^53), Go int as unbounded Int, callbacks as pure functions. "
              "Runtime residue: 'on every thread schedule' and 'race-free whenever the callback is' are theorems about the event-log model; that the Go code is such a program (no other shared writes, wg.Wait after all workers, channel protocol of the block jobs) is the race detector's verdict on the runs made. "
              "addFieldParallel_eq_addField is about a job model in which a cell is (block coordinate, index): that distinct blocks own distinct arrays (slot allocation under chunkMutex) and the calc phase of AddFieldParallel2 are not modelled. Not modelled: marchFloat1BlockPosition (same function in both variants), fieldBounds float rounding, the NumCPU()==1 delegations; the weld after the merge is compared on weld cells for smooth fields because its representative choice depends on block order for the sequential March as well.",
         technique="Lean 4 proof over partition / block-range expressions regenerated from the Go AST + inductive interleaving model of schedules; exhaustive small-space correspondence with compiled oracles; race detector for the runtime residue"),
-    rule="one evaluation = one request line answered by the Go implementation and the Lean model/oracle; stream c10: per (n, size) pair 29 lines over 9 specs; stream c10m: per canvas 5 oracle lines (2 sample multisets, 3 triangle multisets)",
+    rule="one evaluation = one request line answered by the Go implementation and the Lean model/oracle; stream c10: per (n, size) pair 29 lines over 9 specs; stream c10m: placement canvas 5 oracle lines (2 sample multisets, 3 triangle multisets), seam canvas 3 (2 sample multisets, 1 triangle multiset), history canvas 4 per call (samples + cells for 2 variants) + 3 model lines c10.accumulate + 1 triangle multiset",
 )
